@@ -38,6 +38,7 @@ type Engine struct {
 	monitors      []*Monitor
 	droppedCand   map[string]map[string]bool
 	mutableGlobal map[*ssa.Global]bool
+	lockClasses   map[string]bool // "pkg.Type.mutexPath" -> sections must be non-blocking
 	structInvs    []*StructInv
 	owned         map[string]string // "pkg.Type" -> ghost field that must be 1 to touch the object
 	views         map[string]map[string]*Contract
